@@ -1240,7 +1240,7 @@ func (repo *Repository) load(ctx context.Context, depth int) error {
 }
 
 func (repo *Repository) loadBranchHashHeights(ctx context.Context, branch *Branch) {
-	height := branch.parentHeight + 1
+	height := branch.PrunedLowestHeight() // first header can be above parent height + 1 when pruned
 	for _, headerData := range branch.headers {
 		repo.heights[headerData.Hash] = height
 		height++
